@@ -726,7 +726,7 @@ class Hugr(Mapping[Node, NodeData], Generic[OpVarCov]):
         """
         offset = self.num_ports(node, direction)
         sig_offset = self._signature_order_offset(node, direction)
-        return offset if sig_offset is None else max(offset, sig_offset)
+        return offset if sig_offset is None else sig_offset
 
     def _signature_order_offset(
         self, node: Node, direction: Direction
